@@ -290,8 +290,8 @@ func (c *Ctx) hostedArg(v ssa.Value, root *ssa.Function) ssa.Value {
 		if !ok || p.Parent() == root || !c.hostedBy(p.Parent(), root) {
 			return v
 		}
-		sites, vals := c.allCallersOf(p.Parent())
-		if len(sites) != 1 || len(vals) != 0 {
+		sites, host := c.hostSites(p.Parent(), true)
+		if host == nil || len(sites) != 1 {
 			return v
 		}
 		ci, ok := sites[0].Instr.(ssa.CallInstruction)
